@@ -2790,3 +2790,25 @@ def slice_is_sorted(ex, m, a, fr, dest):
                 return False
         return True
     return all(generic_cmp(ex, xs[i], xs[i + 1], fr) <= 0 for i in range(len(xs) - 1))
+
+
+@model(r'(?:core|std|alloc)::slice::<impl \[.*\]>::binary_search')
+def slice_binary_search(ex, m, a, fr, dest):
+    # the real algorithm (core::slice::binary_search_by), so that unsorted input behaves as in Rust
+    from .interp import seq_items
+    items, lo0, hi0 = seq_items(deref(a[0]))
+    key = deref(a[1])
+    size = hi0 - lo0
+    if size == 0:
+        return err(0)
+    base = 0
+    while size > 1:
+        half = size // 2
+        mid = base + half
+        c = generic_cmp(ex, items[lo0 + mid], key, fr)
+        base = base if c > 0 else mid
+        size -= half
+    c = generic_cmp(ex, items[lo0 + base], key, fr)
+    if c == 0:
+        return ok(base)
+    return err(base + (1 if c < 0 else 0))
